@@ -267,7 +267,10 @@ def zero_values(arr, letters):
 def processes_cases(cx):
     fn = cx.prog.func("processes.py", "make_processes")
     for names, ok_expected in [(["sysenv", "use", "waste"], True), (["sysenv"], True), ([], True), (["use", "sysenv"], False), (["use"], False),
-                               (["sysenv", "b", "a", "c"], True)]:
+                               (["sysenv", "b", "a", "c"], True),
+                               # near misses of the reserved name: parts of it, other case, padded, empty
+                               (["env", "use"], False), (["sys", "use"], False), (["s"], False), (["", "use"], False), (["Sysenv", "use"], False),
+                               (["sysenv ", "use"], False), (["sysenvironment"], False), (["sysenv", "sys", "env"], True)]:
         w = new_world(cx)
         kind, r = run_guarded(lambda: w.it.call_fn(fn, [list(names)], {}))
         inp = {"processes": names}
